@@ -50,6 +50,15 @@ QUERIES += [
     'select a, b from t1 order by b desc nulls first, a', 'select a, b from t1 order by b desc nulls last, a',
     'select a from t1 order by a limit 1', 'select a from t1 order by a limit 1 offset 1', 'select a, b from t1 order by a, b limit 2',
     'select a from t1 union select a from t2', 'select a from t1 union all select a from t2',
+    # boundary limits; chains of set operations whose links differ in ALL / DISTINCT and in kind
+    'select a from t1 order by a limit 0', 'select a from t1 order by a limit 0 offset 1', 'select a from t1 order by a limit 1, 0',
+    'select a from t1 order by a limit 2 offset 0', 'select * from (select a from t1 order by a limit 0 offset 1) as s',
+    'select a from t1 union select a from t2 union all select b from t3', 'select a from t1 union all select a from t2 union select b from t3',
+    'select a from t1 union select a from t2 union select b from t3', 'select a from t1 union all select a from t2 union all select b from t3',
+    'select a from t1 except select a from t2 union select b from t3', 'select a from t1 except select a from t2 except select b from t3',
+    'select a from t1 union select a from t2 except select b from t3', 'select a from t1 intersect select a from t2 union all select b from t3',
+    'select * from (select a from t1 union select a from t2 union all select b from t3) as s',
+    'with c as (select a from t1 union select a from t2 union all select a from t1) select a from c',
     'select a from t1 intersect select a from t2', 'select a from t1 except select a from t2',
     'with c as (select a, c from t2) select t1.a, c.c from t1 join c on t1.a = c.a',
     'with c as (select a from t2 where c = 1) select a from t1 where a in (select a from c)',
@@ -135,6 +144,32 @@ def norm_text(s):
     return s
 
 
+def wrap_compound_operands(text):
+    """`(X) UNION ..` -> `SELECT * FROM (X) UNION ..` for a leading parenthesised operand (also inside FROM ( .. ) / WITH)."""
+    import re as _re
+
+    def fix_at(t, i):
+        depth, j = 0, i
+        while j < len(t):
+            if t[j] == '(':
+                depth += 1
+            elif t[j] == ')':
+                depth -= 1
+                if depth == 0:
+                    break
+            j += 1
+        rest = t[j + 1:].lstrip().upper()
+        if t[i + 1:].lstrip().upper().startswith('SELECT') and rest.startswith(('UNION', 'EXCEPT', 'INTERSECT')):
+            return t[:i] + 'SELECT * FROM ' + t[i:j + 1] + ' AS _w' + t[j + 1:]
+        return t
+    out = text
+    for m in list(_re.finditer(r'(^|\(|AS\s*\n?)\s*\((?=\s*SELECT)', text, _re.I))[::-1]:
+        k = out.find('(', m.end() - 1)
+        if k >= 0:
+            out = fix_at(out, k)
+    return out
+
+
 def run(ctx):
     thorough = ctx.tier == 'thorough'
     rng = random.Random(ctx.seed + 6)
@@ -179,10 +214,24 @@ def run(ctx):
                         rows = [[fix(v) for v in row] for row in con.execute(text)]
                         o = {'orig': r['orig'], 'tables': tables, 'asg': asg, 'rows': rows, 'defdb': 'main'}
                 except sqlite3.Error as e:
-                    if which == 'rendered':
-                        ctx.violation('rendered-text-not-executable', 'sqlite3 cannot execute the text rendered for sqlite: %s' % e,
-                                      {'sql': r['sql'], 'rendered': text}, pin=(r['sql'], 'not-executable'))
-                    break
+                    if which != 'rendered':
+                        break
+                    # a parenthesised compound operand `(a UNION b) UNION ALL c` is not sqlite syntax: report it, then judge the
+                    # meaning of the rendering with the operand wrapped as a derived table
+                    t2 = wrap_compound_operands(text)
+                    rows = None
+                    if t2 != text and 'dml' not in r:
+                        try:
+                            rows = [[fix(v) for v in row] for row in make_db(asg).execute(t2)]
+                        except sqlite3.Error:
+                            rows = None
+                    nested = t2 != text
+                    ctx.violation('rendered-text-not-executable' + (':nested-set-operation' if nested else ''),
+                                  'sqlite3 cannot execute the text rendered for sqlite: %s' % e,
+                                  {'sql': r['sql'], 'rendered': text}, pin=(r['sql'], 'not-executable'))
+                    if rows is None:
+                        break
+                    o = {'orig': r['orig'], 'tables': tables, 'asg': asg, 'rows': rows, 'defdb': 'main'}
                 if any((not isinstance(v, int)) for row in rows for v in row):
                     break
                 obs.append(o)
